@@ -183,6 +183,16 @@ def _catalogue():
     F("utils.quat_frobenius_norm", lambda R: ([R.choice([_anymat(R), SP(_anymat(R))])], {}))
     F("utils.quat_hermitian", lambda R: ([R.choice([_anymat(R), SP(_anymat(R))])], {}))
     F("utils.quat_eye", lambda R: ([R.randint(1, 5)], {}))
+
+    def sqm_ctor(R):
+        # the public constructor itself, on the caller's four CSR components (integer-valued data so
+        # that the components contain genuine zeros; half of the time stored explicitly)
+        m, n = _dims(R, 1, 4)
+        ez = R.random() < 0.5
+        comps = [{"gen": "csr", "explicit_zeros": ez,
+                  "of": {"gen": "realint", "m": m, "n": n, "seed": R.randrange(10 ** 6)}} for _ in range(4)]
+        return comps + [{"gen": "tuple", "items": [m, n]}], {}
+    F("utils.SparseQuaternionMatrix", sqm_ctor, 2)
     F("utils.induced_matrix_norm_1", lambda R: ([_anymat(R)], {}))
     F("utils.induced_matrix_norm_inf", lambda R: ([_anymat(R)], {}))
     F("utils.spectral_norm_2", lambda R: ([_anymat(R)], {}))
